@@ -329,6 +329,28 @@ func (b *Branch) IntersectHash(other *Branch) *bitcoin.Hash32 {
 		current = current.parent
 	}
 
+	// Neither branch descends from the other (sibling or cousin branches). Find the closest
+	// branch they both descend from; the intersect is the lower of the two heights at which they
+	// leave it.
+	for current = b; current.parent != nil; current = current.parent {
+		for o := other; o.parent != nil; o = o.parent {
+			if o.parent != current.parent {
+				continue
+			}
+
+			height := current.parentHeight
+			if o.parentHeight < height {
+				height = o.parentHeight
+			}
+
+			data := current.parent.AtHeight(height)
+			if data == nil {
+				return nil
+			}
+			return &data.Hash
+		}
+	}
+
 	return nil
 }
 
